@@ -28,7 +28,6 @@ import (
 	"os"
 	"regexp"
 	"runtime"
-	"runtime/pprof"
 	"sort"
 	"strings"
 	"sync"
@@ -451,31 +450,14 @@ func toSpecs(sets []idxSet) []setSpec {
 
 var bitIdx = []int{0, 31, 32, 1023}
 
-var stopProfile = func() {}
-
 func main() {
 	// the matcher allocates a bitmap and several strings per query while the live heap stays small:
 	// collect by heap size instead of by growth ratio (fewer, larger cycles)
 	// The matcher allocates a bitmap and a few strings per query while the live heap of this harness is
-	// tiny, which would make the collector cycle every few MB. An untouched (hence non-resident) ballast
-	// raises the heap goal so that cycles are ~1 GB of allocation apart.
-	bmb := 1024
-	if v := os.Getenv("C11_BALLAST_MB"); v != "" {
-		fmt.Sscan(v, &bmb)
-	}
-	ballast := make([]byte, bmb<<20)
-	if os.Getenv("C11_TOUCH") != "" {
-		for i := 0; i < len(ballast); i += 4096 {
-			ballast[i] = 1
-		}
-	}
+	// tiny, which makes the collector cycle every few MB. A small ballast spaces the cycles out; a large one
+	// is counter-productive here (first touch of fresh memory is very expensive in this VM).
+	ballast := make([]byte, 32<<20)
 	defer runtime.KeepAlive(ballast)
-	if pf := os.Getenv("C11_CPUPROFILE"); pf != "" {
-		f, _ := os.Create(pf)
-		pprof.StartCPUProfile(f)
-		defer pprof.StopCPUProfile()
-		stopProfile = pprof.StopCPUProfile
-	}
 	r := vlib.Start("C11", "exploration")
 	h := &harness{r: r, evals: r.Counter("evaluations"), pos: r.Counter("positive_expected"), neg: r.Counter("negative_expected"),
 		distinct: new(atomic.Int64), outcomes: map[string]struct{}{}, lapStart: time.Now()}
@@ -528,10 +510,6 @@ func main() {
 	})
 
 	h.lap("single")
-	stopProfile()
-	if os.Getenv("C11_ONLY") == "single" {
-		r.Finish()
-	}
 	// ---- leg allidx
 	r.ParallelFor(1024, func(i int) {
 		if h.over("allidx") {
